@@ -292,6 +292,26 @@ func pageMain(args []string) {
 				rep.Fail(hx.Failure{Kind: "harness-error", Key: "ctor", Case: kind + " " + c.encode(), Detail: fmt.Sprint(err)})
 				continue
 			}
+			// the page the paginator starts on is the first page of the collection
+			var startCount int64 = -1
+			switch gp := p.(type) {
+			case interface {
+				GetCurrentPage() (pagination.IPage, error)
+			}:
+				if pg, gerr := gp.GetCurrentPage(); gerr == nil && pg != nil {
+					startCount, _ = pg.GetItemCount()
+				}
+			case interface {
+				GetCurrentPage() (pagination.IStaticPage, error)
+			}:
+				if pg, gerr := gp.GetCurrentPage(); gerr == nil && pg != nil {
+					startCount, _ = pg.GetItemCount()
+				}
+			}
+			if startCount != int64(len(c.pages[0].items)) {
+				rep.Fail(hx.Failure{Kind: "impl-violates-property", Key: "current-page-is-not-the-first-page", Case: kind + " " + c.encode(),
+					Expected: fmt.Sprint(len(c.pages[0].items), " items"), Observed: fmt.Sprint(startCount)})
+			}
 			outs, items := runPagerOps(p, ops)
 			line := "page " + c.encode() + " " + ops
 			nontriv := len(c.pages) >= 2 && strings.Contains(ops, "g")
